@@ -30,7 +30,17 @@ type Case struct {
 	// Extra (2-D functions only): 0 = coordinates of two ordinates; 1 = every
 	// coordinate carries its own third ordinate; 2 = coordinates of different lengths.
 	Extra int `json:"extra,omitempty"`
+	// Exp: every ordinate is multiplied by 2^Exp before it is handed to the library
+	// (exact), and every distance returned is divided by 2^Exp before it is compared
+	// (exact): distances scale with the coordinates, at any magnitude at which the
+	// squares (2-D) or fourth powers (3-D) of the coordinates are finite and normal.
+	Exp int `json:"exp,omitempty"`
 }
+
+// curExp is Case.Exp of the case being evaluated (one case at a time per process).
+var curExp int
+
+func sc(v float64) float64 { return math.Ldexp(v, curExp) }
 
 func pt(t *rapid.T, lim int64, label string) [3]int64 {
 	return [3]int64{rapid.Int64Range(-lim, lim).Draw(t, label+"x"), rapid.Int64Range(-lim, lim).Draw(t, label+"y"), rapid.Int64Range(-lim, lim).Draw(t, label+"z")}
@@ -158,9 +168,17 @@ func genSegSeg(t *rapid.T, three bool) (string, [][3]int64) {
 
 func genCase(t *rapid.T) Case {
 	c := genCase0(t)
+	lim := 230
 	switch c.Fn {
 	case "seg-seg2", "pt-seg2", "perp2", "pt-ls2":
 		c.Extra = rapid.SampledFrom([]int{0, 0, 1, 2}).Draw(t, "extra")
+		lim = 480
+	}
+	if rapid.IntRange(0, 3).Draw(t, "scaled") == 0 {
+		c.Exp = rapid.SampledFrom([]int{-lim, lim, -lim / 2, lim / 2, 260, -260, 100, -100, 30, -30}).Draw(t, "exp")
+		if c.Exp > lim || c.Exp < -lim || rapid.Bool().Draw(t, "expany") {
+			c.Exp = rapid.IntRange(-lim, lim).Draw(t, "expv")
+		}
 	}
 	return c
 }
@@ -206,8 +224,10 @@ func genCase0(t *rapid.T) Case {
 	}
 }
 
-func c2(p [3]int64) geom.Coord { return geom.Coord{float64(p[0]), float64(p[1])} }
-func c3(p [3]int64) geom.Coord { return geom.Coord{float64(p[0]), float64(p[1]), float64(p[2])} }
+func c2(p [3]int64) geom.Coord { return geom.Coord{sc(float64(p[0])), sc(float64(p[1]))} }
+func c3(p [3]int64) geom.Coord {
+	return geom.Coord{sc(float64(p[0])), sc(float64(p[1])), sc(float64(p[2]))}
+}
 func e2(p [3]int64) exact.P2   { return exact.Pt(float64(p[0]), float64(p[1])) }
 func e3(p [3]int64) exact.P3   { return exact.Pt3(float64(p[0]), float64(p[1]), float64(p[2])) }
 
@@ -222,6 +242,10 @@ func scaleOf(c Case, dims int) float64 {
 }
 
 func check(what string, got float64, d2 *big.Rat, tol float64, exactZero bool) error {
+	if curExp != 0 {
+		what = fmt.Sprintf("%s [all ordinates x 2^%d, result / 2^%d]", what, curExp, curExp)
+		got = math.Ldexp(got, -curExp)
+	}
 	if math.IsNaN(got) {
 		return fmt.Errorf("%s = NaN (exact distance^2 %v)", what, exact.Float(d2))
 	}
@@ -239,6 +263,8 @@ func check(what string, got float64, d2 *big.Rat, tol float64, exactZero bool) e
 
 func prop(c Case) error {
 	P := c.P
+	curExp = c.Exp
+	defer func() { curExp = 0 }()
 	// cc is point i as the coordinate handed to a 2-D function
 	cc := func(i int) geom.Coord {
 		out := c2(P[i])
@@ -292,7 +318,7 @@ func prop(c Case) error {
 		}
 		var line []float64
 		for i, p := range P[1:] {
-			line = append(line, float64(p[0]), float64(p[1]))
+			line = append(line, sc(float64(p[0])), sc(float64(p[1])))
 			for d := 2; d < stride; d++ {
 				line = append(line, float64(i*7919+d)*1e6)
 			}
